@@ -209,7 +209,11 @@ class C20(core.Check):
                 yield dict(fam='single', text=t, accept=rnd.choice(ACC))
         for i in range(nsh):
             lang = rnd.choice(['en', 'de', 'ru'])
-            yield dict(fam='shell', text=gen_text(rnd, 25) + ' ' + gen_eq_text(rnd, self.ph_of(lang)) + '\n',
+            ph = self.ph_of(lang)
+            # (often: a placeholder at the end of a line, the sentence goes on in the next line with a capital)
+            tail = '' if rnd.random() < .5 else ' %s%s\nTherefore word %s%s\nHence x.' % (
+                rnd.choice(ph['display']), rnd.choice(['', ',', ';', ' ']), rnd.choice(ph['inline']), rnd.choice(['', ';', ':']))
+            yield dict(fam='shell', text=gen_text(rnd, 25) + ' ' + gen_eq_text(rnd, ph) + tail + '\n',
                        accept=rnd.choice(ACC) + rnd.choice(['', '||']), lang=lang, mode=rnd.choice(['displayed', 'inline', 'all']),
                        ml=rnd.random() < .3, xml=rnd.choice([None, 'xml', 'xml-b', 'xml-b']),
                        cfg=rnd.choice([0, 0, 1, 2, 3, 4]),
@@ -466,7 +470,11 @@ class C20(core.Check):
                 for m in sorted(own, key=lambda m: m['offset']):
                     o, ln = m['offset'], m['length']
                     nl = tt.rfind('\n', 0, o) + 1
-                    want.append((tt.count('\n', 0, o), enc(tt[nl:o]), tt[o:o + ln]))
+                    last = o + ln - 1
+                    nl2 = tt.rfind('\n', 0, last) + 1
+                    # (end of the marked range: line of the last character, column behind it)
+                    want.append((tt.count('\n', 0, o), enc(tt[nl:o]), tt[o:o + ln], tt.count('\n', 0, last),
+                                 enc(tt[nl2:last + 1])))
                 got = []
                 for e in errs:
                     if e.get('msg') not in ('Single letter detected.',) and 'punctuation' not in e.get('msg', '').lower():
@@ -476,9 +484,11 @@ class C20(core.Check):
                         marked = ctext.encode('utf-8')[coff:coff + clen].decode('utf-8', 'replace')
                     else:
                         marked = ctext[coff:coff + clen]
-                    got.append((int(e.get('fromy')), int(e.get('fromx')), marked))
+                    got.append((int(e.get('fromy')), int(e.get('fromx')), marked, int(e.get('toy')), int(e.get('tox'))))
                 norm = lambda s: s.replace('\n', ' ').replace('\t', ' ')        # noqa
-                if sorted(got) != sorted((a, b, norm(w)) for a, b, w in want):
+                if any(a != ty for a, b, w, ty, tx in want):
+                    cnt['shell_xml_messages_over_line_break'] = cnt.get('shell_xml_messages_over_line_break', 0) + 1
+                if sorted(got) != sorted((a, b, norm(w), ty, tx) for a, b, w, ty, tx in want):
                     detail.update(got=sorted(got), want=sorted(want))
                     return dict(ok=False, nt=True, key='shell:%s:location-or-context' % xmode, cnt=cnt, obs=None, detail=detail)
                 cnt['shell_xml_messages'] = len(got)
@@ -490,7 +500,7 @@ class C20(core.Check):
         return {'fam_single': 20000, 'fam_eq': 10000, 'single_messages': 20000, 'single_accepted_letters': 3000,
                 'eq_messages': 1500, 'shell_runs': 200, 'shell_accept_placeholders': 40, 'shelltex_runs': 100,
                 'shelltex_messages_in_later_parts': 100, 'shelltex_repeated_part': 15, 'shell_xml_messages': 300, 'shell_options_from_config_file': 60,
-                'shell_runs_with_coinciding_proofreader_match': 30}
+                'shell_runs_with_coinciding_proofreader_match': 30, 'shell_xml_messages_over_line_break': 10}
 
 
 CHECK = C20
